@@ -378,7 +378,8 @@ func c25SwampCases(rng *rand.Rand, tier string, id *int, w *bufio.Writer) {
 			if fault {
 				lines = append(lines, fmt.Sprintf("fsizeplus %d", c02Pick(rng, 0, 0, 17, 300)))
 			}
-			if live[k] && rng.Intn(2) == 0 {
+			// (a swamp that loses its last treasure destroys itself: keep one alive)
+			if live[k] && len(live) >= 2 && rng.Intn(2) == 0 {
 				lines = append(lines, fmt.Sprintf("sdel %d", k))
 				delete(live, k)
 			} else {
